@@ -128,6 +128,37 @@ def two_d(S, family, levels, boundary, sub):
         S.prove(S.eq(sum(grid.get_weights()), (e[0] - s[0]) * (e[1] - s[1])), '2d:weights-sum-to-box-volume')
 
 
+def basis_local(S, family, p, levels, box, sub):
+    """Local hierarchical Lagrange / B-spline grid used on a sub-box of its domain: announced number of points, all inside the sub-box,
+    and every polynomial of degree <= min(p, n_k - 1) per dimension (symbolic coefficients) integrated exactly."""
+    from harness import c10
+    from sparseSpACE import Grid as G
+    d = len(levels)
+    w = box[1] - box[0]
+    a = np.array([box[0]] * d, dtype=float)
+    b = np.array([box[1]] * d, dtype=float)
+    start = np.array([box[0] + sub[k % len(sub)][0] * w for k in range(d)], dtype=float)
+    end = np.array([box[0] + sub[k % len(sub)][1] * w for k in range(d)], dtype=float)
+    grid = (G.LagrangeGrid if family == 'lagrange' else G.BSplineGrid)(a, b, boundary=True, p=p)
+    degs = [min(p, 2 ** l) for l in levels]
+    coeffs = {e: S.real('c' + ''.join(map(str, e))) for e in itertools.product(*[range(g + 1) for g in degs])}
+    f = c10._poly_function(S, d, max(degs), coeffs)
+    val = grid.integrate(f, list(levels), start, end)
+    got = val[0] if hasattr(val, '__len__') else val
+    pts = [tuple(float(x) for x in q) for q in grid.getPoints()]
+    S.observe('npts', len(pts))
+    S.prove(len(pts) == int(np.prod(grid.levelToNumPoints(list(levels)))), 'basis:as-many-points-as-announced')
+    S.prove(all(start[k] <= q[k] <= end[k] for q in pts for k in range(d)), 'basis:points-inside-the-sub-box')
+    want = 0
+    for e, c in coeffs.items():
+        t = c
+        for k in range(d):
+            t = t * (end[k] ** (e[k] + 1) - start[k] ** (e[k] + 1)) / (e[k] + 1)
+        want = want + t
+    scale = 1 + sum(abs(c) for c in coeffs.values())
+    S.prove(S.close(got, want, 1e-9, scale), 'basis:polynomials-up-to-min(p,n-1)-integrated-exactly-on-the-sub-box')
+
+
 def _subs():
     return [(i, j) for i in range(len(TS)) for j in range(i + 1, len(TS)) if (TS[j] - TS[i]) in (Fraction(1), Fraction(1, 2), Fraction(1, 4))]
 
@@ -151,7 +182,7 @@ META = {
                     'boundary-off grids are requested with level >= 1 (level 0 = the two end points only; there the code returns the box midpoint, which is its documented full-domain special case)',
                     'Simpson is checked with boundary points (its no-boundary variant returns a weight vector that is only meaningful on the full domain)'],
     'outside': ['Clenshaw-Curtis, Leja, Gauss-Legendre families: nodes/weights come from cos, fmin, leggauss (transcendental / compiled optimisation) - no algebraic encoding',
-                'local Lagrange / B-spline grids (reachable parts under C10)', 'd > 2 tensorisation'],
+                'local Lagrange / B-spline grids without boundary points (known finding C10-K1) and p > 3', 'd > 2 tensorisation'],
 }
 
 MANIFEST_ENTRY = {
@@ -183,4 +214,14 @@ def jobs(tier):
                         continue
                     js.append(Job('2d[%s,l=(%d,%d),%s,sub=%d]' % (family, l0, l1, 'b' if boundary else 'nb', k), two_d,
                                   {'family': family, 'levels': (l0, l1), 'boundary': boundary, 'sub': sub}))
+    q = tier == 'quick'
+    n = 0
+    for family, ps in (('lagrange', (1, 2, 3)), ('bspline', (1, 3))):
+        for p in ps:
+            for levels, sub in ([((1,), [(0.0, 1.0)]), ((2,), [(0.0, 0.5)]), ((3,), [(0.25, 0.5)]), ((2, 1), [(0.5, 1.0), (0.25, 0.5)])] if q else
+                                [((1,), [(0.0, 1.0)]), ((1,), [(0.5, 1.0)]), ((2,), [(0.0, 0.5)]), ((3,), [(0.25, 0.5)]), ((4,), [(0.5, 0.75)]), ((2, 1), [(0.5, 1.0), (0.25, 0.5)]), ((2, 2), [(0.0, 0.5), (0.5, 0.75)])]):
+                box = (0.0, 1.0) if n % 2 else (-3.0, 5.0)
+                n += 1
+                js.append(Job('basis[%s,p=%d,l=%s,sub=%s,box=%s]' % (family, p, 'x'.join(map(str, levels)), sub, box), basis_local,
+                              {'family': family, 'p': p, 'levels': list(levels), 'box': list(box), 'sub': [list(x) for x in sub]}))
     return js
